@@ -21,6 +21,29 @@ var BoundaryFloats = []float64{0, 0.5, -0.5, 1, 1.5, 2.5, 3.0, -2.0, 65534.0, 65
 // BoundaryStrings are the strings every string generator is biased to.
 var BoundaryStrings = []string{"", "a", "b", "A", "abc", "ABC", "10", "9", " a ", "é", "狐犬", "a\nb", "true", "1.5", "a b c", "Steve", "x/y", `q"r`, `b\s`}
 
+// Uniform draws an integer in [0, n) with (nearly) equal probabilities.
+// rapid's own integer generators are deliberately biased towards small
+// values, which starves weighted choices; fair coin flips are not biased,
+// and still shrink towards 0.
+func Uniform(t *rapid.T, label string, n int) int {
+	if n <= 1 {
+		return 0
+	}
+	bits := 0
+	for (1 << bits) < n {
+		bits++
+	}
+	bits += 3 // reduce the modulo skew
+	v := 0
+	for i := 0; i < bits; i++ {
+		v <<= 1
+		if rapid.Bool().Draw(t, label) {
+			v |= 1
+		}
+	}
+	return v % n
+}
+
 // Int draws an integer: boundary value or random (small or full range).
 func Int(t *rapid.T, label string) int64 {
 	switch rapid.IntRange(0, 9).Draw(t, label+"_cls") {
